@@ -1,7 +1,8 @@
 """Wave 5 (w_wr): the extracted classifier K (coq/theories/WriterMix.v) for the C14 / C15 oracles, and the
 bare-word contract of the texts the writer prints.
 
-kclasses(ctx, docs, called=False) -> [(k14, k15, wx)] per document: `writer.kclass` of the OCaml driver, i.e. the
+kclasses(ctx, docs, called=False) -> [(k14, k15, wx, k14p)] per document (k14p = k14 with the parser's second-marker
+rule, the class the C14 oracles use on parsed tapes): `writer.kclass` of the OCaml driver, i.e. the
 functions k14_class / k15_class / wx_fields the theorems of Props/C14_mixcont.v / C15_mixcont.v are about:
     k14 = 1 parameter value, 2 operator written while the single mixed-mode flag is dirty, 0 outside K
     k15 = 2 operator CALL while dirty, 3 flag lost for later entries of a list, 0 outside K
@@ -83,13 +84,16 @@ def kclasses(ctx, docs, called=False, stream="kclass"):
     for o in outs:
         try:
             p = dict(x.split("=") for x in o.split(" "))
-            res.append((int(p["k14"]), int(p["k15"]), int(p["wx"])))
+            res.append((int(p["k14"]), int(p["k15"]), int(p["wx"]), int(p["k14p"])))
         except Exception:
             res.append(None)          # not classifiable: never excuses a failure
             ctx.count(stream + "_unclassified")
     for r in res:
         if r is not None:
             ctx.count("%s_k14_%d" % (stream, r[0])); ctx.count("%s_k15_%d" % (stream, r[1])); ctx.count("%s_wx_%d" % (stream, r[2]))
+            ctx.count("%s_k14p_%d" % (stream, r[3]))
+            if r[3] != r[0]:
+                ctx.count("%s_k14p_differs_from_k14" % stream)      # only on documents whose parsed tape has a second marker
     ctx.evaluations += len(cases)
     return res
 
